@@ -13,7 +13,7 @@ use domain::base::cmp::CanonicalOrd;
 use domain::base::iana::{Class, Rtype};
 use domain::base::message_builder::{MessageBuilder, StaticCompressor, TreeCompressor};
 use domain::base::name::{Label, Name, ParsedName, ToLabelIter, ToName};
-use domain::base::opt::AllOptData;
+use domain::base::opt::{AllOptData, UnknownOptData};
 use domain::base::rdata::UnknownRecordData;
 use domain::base::wire::ParseError;
 use domain::base::zonefile_fmt::{DisplayKind, ZonefileFmt};
@@ -30,6 +30,9 @@ use std::hash::{Hash, Hasher};
 use std::sync::Mutex;
 
 static LAST_PANIC: Mutex<String> = Mutex::new(String::new());
+static PHASE: Mutex<&'static str> = Mutex::new("start");
+
+fn phase(p: &'static str) { if let Ok(mut g) = PHASE.lock() { *g = p; } }
 
 fn install_hook() {
     std::panic::set_hook(Box::new(|info| {
@@ -38,7 +41,9 @@ fn install_hook() {
                 let f = l.file();
                 let stem = f.rsplit('/').next().unwrap_or(f).trim_end_matches(".rs");
                 let dir = f.rsplit('/').nth(1).unwrap_or("");
-                format!("{}_{}_{}", dir, stem, l.line())
+                let ph = PHASE.lock().map(|g| *g).unwrap_or("unknown");
+                let _ = l.line();
+                format!("{}_{}_{}", ph, dir, stem)
             }
             None => "unknown".to_string(),
         };
@@ -215,6 +220,21 @@ fn obs_msg(bytes: &[u8]) -> String {
             k += 1;
             if k > 200_000 { t.push_str(" TOO-MANY"); break; }
         }
+        t.push_str(" | cn ");
+        match msg.canonical_name() { Some(n) => t.push_str(&name_obs(&n)), None => t.push_str("none") }
+        t.push_str(" | opt ");
+        match msg.opt() {
+            None => t.push_str("none"),
+            Some(o) => {
+                let _ = write!(t, "{} {} {}", o.udp_payload_size(), o.version(), o.dnssec_ok() as u8);
+                for x in o.opt().iter::<UnknownOptData<_>>() {
+                    match x { Ok(x) => { let _ = write!(t, " {}:{}", x.code().to_int(), hex(x.as_slice())); } Err(e) => { let _ = write!(t, " E{}", err_word(&e)); } }
+                }
+            }
+        }
+        t.push_str(" | sl ");
+        let sl = obs_islice(&b2, 12);
+        t.push_str(sl.strip_prefix("Ok ").unwrap_or(&sl));
         t
     }).unwrap_or_else(|_| "Panic".into())
 }
@@ -223,7 +243,7 @@ fn obs_msg(bytes: &[u8]) -> String {
 
 struct Tr {
     s: String,
-    bad: Vec<(&'static str, String)>,
+    bad: Vec<(String, String)>,
     base: usize,
     len: usize,
 }
@@ -232,8 +252,16 @@ impl Tr {
     fn within(&mut self, sl: &[u8], what: &str) {
         let a = sl.as_ptr() as usize;
         if a < self.base || a + sl.len() > self.base + self.len {
-            self.bad.push(("overrun", format!("{} slice outside the message", what)));
+            self.bad.push(("overrun".to_string(), format!("{} slice outside the message", what)));
         }
+    }
+}
+
+fn guarded<T>(t: &mut Tr, ph: &'static str, f: impl FnOnce() -> T) -> Option<T> {
+    phase(ph);
+    match catch_mut(f) {
+        Ok(v) => Some(v),
+        Err(e) => { t.bad.push((format!("panic_{}", last_site()), e)); None }
     }
 }
 
@@ -244,6 +272,7 @@ fn hash_of<T: Hash>(x: &T) -> u64 {
 }
 
 fn ex_name(t: &mut Tr, n: &ParsedName<&[u8]>) {
+    phase("name");
     let disp = format!("{}", n);
     let dbg = format!("{:?}", n);
     let labels: Vec<&Label> = n.iter().collect();
@@ -251,39 +280,39 @@ fn ex_name(t: &mut Tr, n: &ParsedName<&[u8]>) {
     for (i, l) in labels.iter().enumerate() {
         sum += l.len() + 1;
         t.within(l.as_slice(), "label");
-        if l.len() > 63 { t.bad.push(("invalid_name", format!("label of {} octets", l.len()))); }
-        if l.is_root() != (i + 1 == labels.len()) { t.bad.push(("invalid_name", "root label not exactly at the end".into())); }
+        if l.len() > 63 { t.bad.push(("invalid_name".to_string(), format!("label of {} octets", l.len()))); }
+        if l.is_root() != (i + 1 == labels.len()) { t.bad.push(("invalid_name".to_string(), "root label not exactly at the end".into())); }
         let _ = write!(t.s, "{}", l);
         let _ = hash_of(l);
         let _ = (*l).cmp(labels[0]);
     }
-    if labels.is_empty() { t.bad.push(("invalid_name", "no labels".into())); }
+    if labels.is_empty() { t.bad.push(("invalid_name".to_string(), "no labels".into())); }
     if sum != n.compose_len() as usize || sum > 255 {
-        t.bad.push(("invalid_name", format!("labels sum to {} but compose_len is {}", sum, n.compose_len())));
+        t.bad.push(("invalid_name".to_string(), format!("labels sum to {} but compose_len is {}", sum, n.compose_len())));
     }
     let mut back: Vec<&Label> = n.iter().rev().collect();
     back.reverse();
     if back.len() != labels.len() || back.iter().zip(labels.iter()).any(|(a, b)| a.as_slice() != b.as_slice()) {
-        t.bad.push(("invalid_name", "reverse iteration differs from forward iteration".into()));
+        t.bad.push(("invalid_name".to_string(), "reverse iteration differs from forward iteration".into()));
     }
     let lc = n.label_count();
     let first = n.first().len();
     let _ = n.last();
     let mut nsuf = 0;
     for s in n.iter_suffixes() { nsuf += 1; let _ = write!(t.s, "{}", s); if nsuf > 200 { break; } }
-    if nsuf != labels.len() { t.bad.push(("invalid_name", format!("{} suffixes for {} labels", nsuf, labels.len()))); }
+    if nsuf != labels.len() { t.bad.push(("invalid_name".to_string(), format!("{} suffixes for {} labels", nsuf, labels.len()))); }
     let h = hash_of(n);
     let eq = n == n;
     let c = n.cmp(n);
     let cc = n.canonical_cmp(n);
     let v = n.to_vec();
-    if v.as_slice().len() != n.compose_len() as usize { t.bad.push(("invalid_name", "flattened length differs from compose_len".into())); }
+    if v.as_slice().len() != n.compose_len() as usize { t.bad.push(("invalid_name".to_string(), "flattened length differs from compose_len".into())); }
     let eqv = n.name_eq(&v);
     let cv = n.name_cmp(&v);
     let canon = n.to_canonical_name::<Vec<u8>>();
     let sw = n.starts_with(n) && n.ends_with(n);
     if !eq || !eqv || c != std::cmp::Ordering::Equal || cv != std::cmp::Ordering::Equal || cc != std::cmp::Ordering::Equal || !sw {
-        t.bad.push(("invalid_name", "name is not equal to itself / its flat copy".into()));
+        t.bad.push(("invalid_name".to_string(), "name is not equal to itself / its flat copy".into()));
     }
     if let Some(f) = n.as_flat_slice() { t.within(f, "flat name"); }
     let mut a = *n;
@@ -298,30 +327,37 @@ fn ex_name(t: &mut Tr, n: &ParsedName<&[u8]>) {
 
 fn ex_record(t: &mut Tr, r: ParsedRecord<'_, [u8]>, prev: &mut Option<u64>) {
     ex_name(t, &r.owner());
+    phase("record");
     let _ = write!(t.s, "(rr {} {} {} {}", r.rtype(), r.class(), r.ttl().as_secs(), r.rdlen());
     let _ = &r == &r;
+    phase("record_parse");
     match r.to_any_record::<AllRecordData<_, _>>() {
         Ok(rec) => {
-            let z = format!("{}", rec.display_zonefile(DisplayKind::Simple));
-            let zt = format!("{}", rec.display_zonefile(DisplayKind::Tabbed));
-            let zm = format!("{}", rec.display_zonefile(DisplayKind::Multiline));
-            let d = format!("{}", rec);
-            let g = format!("{:?}", rec);
-            let dd = format!("{}", rec.data());
-            let h = hash_of(&rec);
-            let eq = rec == rec;
-            let c = rec.cmp(&rec);
-            let cc = rec.canonical_cmp(&rec);
-            let _ = write!(t.s, " any[{} {} {} {} {} {} {:x} {} {:?} {:?}]", z, zt.len(), zm.len(), d.len(), g.len(), dd.len(), h, eq, c, cc);
+            let z = guarded(t, "record_display", || format!("{}", rec.display_zonefile(DisplayKind::Simple))).unwrap_or_default();
+            let zt = guarded(t, "record_display", || format!("{}", rec.display_zonefile(DisplayKind::Tabbed))).unwrap_or_default();
+            let zm = guarded(t, "record_display", || format!("{}", rec.display_zonefile(DisplayKind::Multiline))).unwrap_or_default();
+            let d = guarded(t, "record_display", || format!("{} {}", rec, rec.data())).unwrap_or_default();
+            let g = guarded(t, "record_debug", || format!("{:?}", rec)).unwrap_or_default();
+            let h = guarded(t, "record_hash", || hash_of(&rec)).unwrap_or(0);
+            let eq = guarded(t, "record_eq", || rec == rec).unwrap_or(true);
+            let c = guarded(t, "record_cmp", || rec.cmp(&rec)).unwrap_or(std::cmp::Ordering::Equal);
+            let cc = guarded(t, "record_canonical_cmp", || rec.canonical_cmp(&rec)).unwrap_or(std::cmp::Ordering::Equal);
+            let _ = write!(t.s, " any[{} {} {} {} {} {:x} {} {:?} {:?}]", z, zt.len(), zm.len(), d.len(), g.len(), h, eq, c, cc);
             *prev = Some(h);
         }
         Err(e) => { let _ = write!(t.s, " anyE[{}]", e); }
     }
+    phase("record_parse");
     match r.to_record::<ZoneRecordData<_, _>>() {
-        Ok(Some(rec)) => { let _ = write!(t.s, " zone[{} {:x}]", rec.display_zonefile(DisplayKind::Simple), hash_of(&rec)); }
+        Ok(Some(rec)) => {
+            let z = guarded(t, "record_display", || format!("{}", rec.display_zonefile(DisplayKind::Simple))).unwrap_or_default();
+            let h = guarded(t, "record_hash", || hash_of(&rec)).unwrap_or(0);
+            let _ = write!(t.s, " zone[{} {:x}]", z, h);
+        }
         Ok(None) => t.s.push_str(" zoneNone"),
         Err(e) => { let _ = write!(t.s, " zoneE[{}]", e); }
     }
+    phase("record_parse");
     match r.to_record::<UnknownRecordData<_>>() {
         Ok(Some(rec)) => { let _ = write!(t.s, " unk[{}]", rec.display_zonefile(DisplayKind::Simple)); t.within(rec.data().data(), "rdata"); }
         Ok(None) => t.s.push_str(" unkNone"),
@@ -345,14 +381,15 @@ fn ex_section(t: &mut Tr, sec: RecordSection<'_, [u8]>) {
             Some(Err(e)) => { let _ = write!(t.s, " secE[{}]", e); }
         }
         n += 1;
-        if n > 70_000 { t.bad.push(("hang", "record iterator yields more than 65535 items".into())); break; }
+        if n > 70_000 { t.bad.push(("hang".to_string(), "record iterator yields more than 65535 items".into())); break; }
     }
     macro_rules! typed {
         ($name:expr, $iter:expr) => {{
+            phase("typed_iter");
             let mut ok = 0; let mut err = 0; let mut k = 0;
             for item in $iter {
                 match item { Ok(rec) => { ok += 1; let _ = write!(t.s, "{}", rec.display_zonefile(DisplayKind::Simple)); } Err(_) => err += 1 }
-                k += 1; if k > 70_000 { t.bad.push(("hang", format!("{} iterator yields more than 65535 items", $name))); break; }
+                k += 1; if k > 70_000 { t.bad.push(("hang".to_string(), format!("{} iterator yields more than 65535 items", $name))); break; }
             }
             let _ = write!(t.s, " {}:{}/{}", $name, ok, err);
         }};
@@ -375,27 +412,29 @@ fn ex_section(t: &mut Tr, sec: RecordSection<'_, [u8]>) {
 
 /// Everything the property lists, in a fixed order.  Returns the transcript and
 /// the invariant violations noticed on the way.
-fn read_all(bytes: &[u8], query: &[u8]) -> (String, Vec<(&'static str, String)>) {
+fn read_all(bytes: &[u8], query: &[u8]) -> (String, Vec<(String, String)>) {
     let mut t = Tr { s: String::new(), bad: vec![], base: bytes.as_ptr() as usize, len: bytes.len() };
     let msg = match Message::from_slice(bytes) {
         Ok(m) => m,
         Err(e) => { let _ = write!(t.s, "short[{}]", e); let _ = Message::from_octets(bytes).is_err(); return (t.s, t.bad); }
     };
+    phase("header");
     let h = msg.header();
     let c = msg.header_counts();
     let _ = write!(t.s, "hdr {} {} {} {} {} {} {} {} {} {} {} {} | {} {} {} {} | {:?} {:?} {} {}", h.id(), h.qr(), h.opcode(), h.aa(), h.tc(), h.rd(), h.ra(),
                    h.z(), h.ad(), h.cd(), h.rcode(), h.flags(), c.qdcount(), c.ancount(), c.nscount(), c.arcount(),
                    msg.header_section().header().id(), msg, msg.no_error(), msg.is_error());
-    t.s.push_str(" Q:");
+    phase("question"); t.s.push_str(" Q:");
     let mut n = 0;
     for q in msg.question() {
         match q {
             Ok(q) => { ex_name(&mut t, q.qname()); let _ = write!(t.s, "(q {} {} {} {:x} {})", q, q.qtype(), q.qclass(), hash_of(&q), q == q); }
             Err(e) => { let _ = write!(t.s, " qE[{}]", e); }
         }
-        n += 1; if n > 70_000 { t.bad.push(("hang", "question iterator yields more than 65535 items".into())); break; }
+        n += 1; if n > 70_000 { t.bad.push(("hang".to_string(), "question iterator yields more than 65535 items".into())); break; }
     }
     let _ = write!(t.s, " qeq {}", msg.question() == msg.question());
+    phase("sections");
     match msg.sections() {
         Ok((q, a, ns, ar)) => { let _ = write!(t.s, " secs {} {} {} {}", q.pos(), a.pos(), ns.pos(), ar.pos()); }
         Err(e) => { let _ = write!(t.s, " secsE[{}]", e); }
@@ -406,16 +445,16 @@ fn read_all(bytes: &[u8], query: &[u8]) -> (String, Vec<(&'static str, String)>)
     match msg.authority() { Ok(s) => ex_section(&mut t, s), Err(e) => { let _ = write!(t.s, "E[{}]", e); } }
     t.s.push_str(" AR:");
     match msg.additional() { Ok(s) => ex_section(&mut t, s), Err(e) => { let _ = write!(t.s, "E[{}]", e); } }
-    t.s.push_str(" IT:");
+    phase("message_iter"); t.s.push_str(" IT:");
     let mut n = 0;
     for item in msg.iter() {
         match item {
             Ok((r, s)) => { let _ = write!(t.s, " {:?}:{}", s, r.rtype()); }
             Err(e) => { let _ = write!(t.s, " E[{}]", e); }
         }
-        n += 1; if n > 200_000 { t.bad.push(("hang", "message iterator yields more than 196605 items".into())); break; }
+        n += 1; if n > 200_000 { t.bad.push(("hang".to_string(), "message iterator yields more than 196605 items".into())); break; }
     }
-    t.s.push_str(" OPT:");
+    phase("opt"); t.s.push_str(" OPT:");
     match msg.opt() {
         Some(o) => {
             let _ = write!(t.s, "{} {} {} {} {:?}", o.udp_payload_size(), o.version(), o.dnssec_ok(), o.rcode(h), o);
@@ -426,7 +465,7 @@ fn read_all(bytes: &[u8], query: &[u8]) -> (String, Vec<(&'static str, String)>)
                     Ok(x) => { let _ = write!(t.s, " opt[{:?}]", x); }
                     Err(e) => { let _ = write!(t.s, " optE[{}]", e); }
                 }
-                k += 1; if k > 70_000 { t.bad.push(("hang", "option iterator yields more than 65535 items".into())); break; }
+                k += 1; if k > 70_000 { t.bad.push(("hang".to_string(), "option iterator yields more than 65535 items".into())); break; }
             }
             let _ = write!(t.s, " {} {:x}", o.opt(), hash_of(o.opt()));
         }
@@ -434,9 +473,12 @@ fn read_all(bytes: &[u8], query: &[u8]) -> (String, Vec<(&'static str, String)>)
     }
     let _ = write!(t.s, " rcode {}", msg.opt_rcode());
     t.s.push_str(" CN:");
-    match msg.canonical_name() { Some(n) => ex_name(&mut t, &n), None => t.s.push_str("none") }
-    t.s.push_str(" FQ:");
+    phase("canonical_name");
+    let cn = msg.canonical_name();
+    match cn { Some(n) => ex_name(&mut t, &n), None => t.s.push_str("none") }
+    phase("first_question"); t.s.push_str(" FQ:");
     match msg.first_question() { Some(q) => { ex_name(&mut t, q.qname()); let _ = write!(t.s, "{}", q); } None => t.s.push_str("none") }
+    phase("question_misc");
     match msg.sole_question() { Ok(q) => { let _ = write!(t.s, " SQ:{}", q); } Err(e) => { let _ = write!(t.s, " SQ:E[{}]", e); } }
     let _ = write!(t.s, " qtype {:?} xfr {} hasA {} hasCname {}", msg.qtype(), msg.is_xfr(), msg.contains_answer::<A>(), msg.contains_answer::<Cname<_>>());
     match msg.get_last_additional::<AllRecordData<_, _>>() {
@@ -447,6 +489,7 @@ fn read_all(bytes: &[u8], query: &[u8]) -> (String, Vec<(&'static str, String)>)
     if let Ok(q) = Message::from_slice(query) {
         let _ = write!(t.s, " ans {} {}", msg.is_answer(q), q.is_answer(msg));
     }
+    phase("copy_records");
     // copy through the builder
     {
         let target = MessageBuilder::new_vec().question();
@@ -456,9 +499,11 @@ fn read_all(bytes: &[u8], query: &[u8]) -> (String, Vec<(&'static str, String)>)
             Err(e) => { let _ = write!(t.s, " copyE[{}]", e); }
         }
     }
+    phase("dig");
     let dig = format!("{}", msg.for_slice_ref().display_dig_style());
     let _ = write!(t.s, " DIG[{}]", dig);
     // slice label iterator at the start of every name we know of
+    phase("slice_iter");
     t.s.push_str(" SL:");
     let mut starts = vec![12usize];
     if let Ok(a) = msg.answer() { starts.push(a.pos()); }
@@ -467,7 +512,7 @@ fn read_all(bytes: &[u8], query: &[u8]) -> (String, Vec<(&'static str, String)>)
         for l in Label::iter_slice(bytes, st) {
             t.within(l.as_slice(), "slice label");
             let _ = write!(t.s, "{}.", l);
-            k += 1; if k > 100_000 { t.bad.push(("hang", "slice label iterator is endless".into())); break; }
+            k += 1; if k > 100_000 { t.bad.push(("hang".to_string(), "slice label iterator is endless".into())); break; }
         }
         t.s.push('/');
     }
